@@ -10,12 +10,12 @@ CLAIMED = {
     # id: (level category, level text, level note, technique, design ref)
     'C14': ('proof',
             'Every entry of the look-alike table literal is checked against the Unicode database and the derived transformer '
-            'x -> table.get(x, x) is tabulated over all 1,114,112 code points; clean() is matched against the '
+            'x -> table.get(x, x) is tabulated over all 1,114,112 code points; clean() is read as the '
             'conversion / 1:1 map / delete-last pipeline. Finite obligations, all discharged on every run, hence proof level '
             'for the clause "clean-up never changes the value"; that every module calls clean() first is C03.',
             'Trusted: CPython ast, unicodedata of /venv (the interpreter the repository runs on), semantics of dict(generator) '
             'and str.join; assumed: no run-time patching of stdnum.util.',
-            'AST extraction of the table literal + Unicode database lookup per entry + shape match of clean()',
+            'AST extraction of the table literal + Unicode database lookup per entry + interpretation of clean() over a stream-of-characters domain',
             'DESIGN.md section C14'),
 }
 
@@ -242,6 +242,44 @@ CLAIMED['C08'] = ('other',
     'Trusted: specs/conversions.json; sa/strabs models; C06 for the generic generators. Known finding: cusip.to_isin on CUSIPs with *, @, #.',
     'abstract interpretation with positional provenance (source cells / generated cells / literals) + raw-argument information flow',
     'DESIGN.md section C08')
+
+# Rules added while working through the seeded changes (DESIGN.md 10.7): appended to the level text of the claim they extend.
+ADDENDA = {
+    'C01': ' Registry reads: a key demanded from the properties of a registry entry must be present in every entry that can reach the read '
+           '(entries without any property count unless a truth test of the properties dominates the read).',
+    'C03': ' For the modules whose validate() and compact() are siblings over a private splitter, every normalisation compact() applies to a part '
+           'must also be applied by validate().',
+    'C04': ' Further structural rules: every path of format() returns a string; validate() must not rewrite the compact form once more before '
+           'checking it (format() starts from compact(x)); an attribute looked up on a dispatched sub-module must exist in every candidate.',
+    'C05': ' With a fixed length gate, no slice the generator takes of the whole number may reach into the compared position; a checksum '
+           'comparison guarded by `part of the number not in <constant list>` is an exemption list and is reported.',
+    'C06': ' Generators are evaluated with checksum() standing for each state and may read the payload only through checksum(); the Damm step '
+           'is evaluated per (state, digit) whatever its form; the Luhn sum is read symbolically (generator sums, accumulation loops, helpers); '
+           'checksum() must consume the number character by character (no int() of the whole argument).',
+    'C07': ' The IBAN envelope relies on util.get_cc_module loading the named submodule (from-list or dotted path), which is checked.',
+    'C08': ' A conversion that is a pure projection of its source has to validate the source first.',
+    'C09': ' util.get_cc_module must import the named submodule (from-list or dotted path): otherwise the dispatch silently returns None.',
+    'C10': ' Guards on the emptiness of an accumulator fork the abstract execution; temporaries of one iteration are atoms with the order type '
+           'they had when assigned; what get() hands to read() and read() to _parse() must be the opened file itself (DT.source).',
+    'C11': ' A constant table against which a consumer tests a prefix of the number (reject / strict subscript / gate of the lookup) must contain '
+           'every top-level prefix of the registry it reads; characters at which the line reader splits a line are reported.',
+    'C12': ' A lookup of a field in a constant (length, low, high) table by string comparison must cut the field to the width of the bounds; '
+           'getter thresholds must be thresholds of validate().',
+    'C13': ' Module-level defaultdicts that functions subscript (inserting lookups), function-level caches and one-shot module iterators are reported.',
+    'C14': ' clean() is interpreted over a small stream domain (helpers followed, generator expressions and joins composed): the result must be '
+           'conversion inside the catch-all, one pass through table.get(x, x), deletion last; the table builder may be any one-expression '
+           'function that evaluates to the name-list map; module-level digit tables of other modules are checked against the Unicode decimal values; '
+           'a regular expression applied to the raw argument before clean() is a read of the raw text.',
+    'C16': ' _max_length() must equal the sum of the component widths of the format; an encoder branch that drops trailing 00 fields may only '
+           'serve formats with an optional part; the fixed/variable choice in encode() may depend on the fnc1 flag only; the separator is '
+           'never used as a character set (strip family).',
+    'C17': ' Paths of validate() that return without any check are limited to two documented modules.',
+    'C18': ' Availability: the C01 obligations and the result kind / attribute totality of every format() the page calls are re-decided; '
+           'util.get_number_modules() must yield every module that has validate().',
+}
+for _pid, _txt in ADDENDA.items():
+    _c = CLAIMED[_pid]
+    CLAIMED[_pid] = (_c[0], _c[1] + _txt) + tuple(_c[2:])
 
 NOT_APPLICABLE = {
 }
